@@ -25,6 +25,7 @@ def execute(case, prefix, seed):
     fmt, k, n, S, op = case["fmt"], case["k"], case["n"], case["S"], case["op"]
     ch = grid.Chooser(prefix)
     g = grid.Grid(S, nclients=2, chooser=ch, fault_kinds=tuple(case.get("fault_kinds", ())), client_kw=dict(k=k, n=n, happy=1))
+    g.sched.batch = bool(case.get("batch"))     # turn granularity, see grid.Sched.batch
     viol, obs = [], {}
     try:
         c = g.clients[0]
@@ -134,11 +135,13 @@ def run(tier, seed):
     res = common.Result()
     plan = [(cases, 1, 0), ([c for c in cases if c["n"] <= 3], 0, 2), ([c for c in cases if c["n"] == 5 and c["S"] == 5], 0, 1)] if tier == "quick" else \
            [(cases, 2, 0), ([c for c in cases if c["n"] <= 3], 1, 2), ([c for c in cases if c["n"] == 5], 0, 2)]
+    bt = lambda cs: [dict(c, batch=True) for c in cs]     # several answers per reactor turn (grid.Sched.batch)
+    plan += [(bt(cases), 0, 0), (bt([c for c in cases if c["n"] <= 3]), 0, 1)] if tier == "quick" else [(bt(cases), 1, 0), (bt([c for c in cases if c["n"] <= 3]), 0, 2)]
     desc = []
     for sel, d, f in plan:
         sel = [dict(c, fault_kinds=FAULTS if f else []) for c in sel]
         res.merge(common.pmap(chunk, sel, (seed, d, f, 20000), chunks=len(sel)))
-        desc.append("%d cases at d<=%d,f<=%d" % (len(sel), d, f))
+        desc.append("%d cases at d<=%d,f<=%d%s" % (len(sel), d, f, " (several answers per reactor turn)" if sel and sel[0].get("batch") else ""))
     cov = {
         "states": res.counts.get("executions", 0),
         "transitions": res.counts.get("transitions", 0),
